@@ -329,7 +329,7 @@ pub fn gen_case<R: Rng>(rng: &mut R, i: usize, kmax: u64) -> Case {
 }
 
 pub fn run(ctx: &Ctx) {
-    ctx.set_rule("the real binary (hooks on) for 7 groups x {polygon 3..8, circle, trimer variants} x {Hard, LJ} x replications 1..K (K = 4 quick / 12 thorough) x step settings, under RAYON_NUM_THREADS in {1,2,3,8}: the hook log gives every replica's final score; the written JSON is re-read and re-scored by the library. Checked: written score = max of the replica scores, logged 'Final score' = score of the written structure (1e-12), score(k+1 replications) >= score(k), wallpaper name / crystal family / copy count / shape geometry recomputed from argv against an independent table. Non-trivial = runs whose replicas have >= 2 distinct final scores; distinct by argv");
+    ctx.set_rule("the real binary (hooks on) for 7 groups x {polygon 3..8, circle, trimer variants} x {Hard, LJ} x replications 1..K (K = 4 quick / 12 thorough) x step settings, under RAYON_NUM_THREADS in {1,2,3,8}: the hook log gives every replica's final score; the written JSON is re-read and re-scored by the library. Checked: written score = max of the replica scores, logged 'Final score' = score of the written structure (1e-12), score(k+1 replications) >= score(k), wallpaper name / crystal family / copy count / shape geometry recomputed from argv against an independent table. Non-trivial = runs whose replicas have >= 2 distinct final scores; distinct by argv; plus single runs with 257, 1001, 1025 (thorough: up to 10,001) replications whose written score must be the maximum of all replica scores in the hook log");
     let exe = match ctx.args.cli.clone() {
         Some(e) => e,
         None => {
@@ -352,6 +352,15 @@ pub fn run(ctx: &Ctx) {
     // many replications, with and without verbose logging
     for (g, shape, lj, reps, verbose) in [("p2", "polygon", false, 64u64, true), ("p2mg", "trimer", false, 56, true), ("p1g1", "circle", true, 51, true), ("p2", "polygon", false, 70, false)].iter() {
         cases.push(Case { group: g.to_string(), shape: shape.to_string(), sides: 4, radius: 0.637556, angle: 120., distance: 1., lj: *lj, max_replications: 1, steps: 100, inner_steps: 100, extra: if *verbose { vec!["-v".into()] } else { vec![] }, fixed_replications: Some(*reps), start_config_from: None });
+    }
+    // very many replications (batch sizes, 8/10/12-bit indices, buffer limits): the written
+    // structure is still the best of all of them
+    let big: Vec<(&str, &str, bool, u64)> = match ctx.tier {
+        Tier::Quick => vec![("p1", "circle", false, 1001), ("p2", "circle", true, 257), ("p1", "polygon", false, 1025)],
+        Tier::Thorough => vec![("p1", "circle", false, 1001), ("p2", "circle", true, 257), ("p1", "polygon", false, 1025), ("p1", "circle", false, 4097), ("p2", "polygon", false, 2049), ("p1", "circle", true, 3000), ("p1", "circle", false, 10_001)],
+    };
+    for (g, shape, lj, reps) in big.iter() {
+        cases.push(Case { group: g.to_string(), shape: shape.to_string(), sides: 4, radius: 0.637556, angle: 120., distance: 1., lj: *lj, max_replications: 1, steps: 1, inner_steps: 1, extra: vec![], fixed_replications: Some(*reps), start_config_from: None });
     }
     // many replicas converging onto near-tied scores: the written one must still be the best
     for (g, shape, lj, reps, steps, step) in [("p1", "circle", true, 48u64, 150u64, "0.02"), ("p2", "circle", true, 40, 400, "0.02"), ("p1", "polygon", false, 32, 600, "0.05")].iter() {
